@@ -6,15 +6,17 @@ EXTENDS Resolve, Json, TLCExt, SequencesExt
 
 CONSTANTS MaxIn, Part, Parts
 
-TreeFiles == [d \in {"", "sub", "sub/deep", "other"} |->
+TreeFiles == [d \in {"", "sub", "sub/deep", "other", "mid", "mid/leaf"} |->
    CASE d = "" -> {"a.txt.txtpp", "c.txtpp", ".e.txtpp", "a.b.txtpp.c", "i.txt.txtpp.bak", "txtpp", ".txtpp",
                    "h.txtpp.tar.gz", "a.txt.TXTPP", "plain.txt", "a.c", "i.bak"}
      [] d = "sub" -> {"b.txtpp.txt", "x.md.txtpp", ".txtpp.f"}
      [] d = "sub/deep" -> {"d.md.txtpp", "z.txtpp"}
-     [] d = "other" -> {"o.txt.txtpp"}]
-TreeSubs == [d \in {"", "sub", "sub/deep", "other"} |->
-   CASE d = "" -> {"sub", "other"} [] d = "sub" -> {"deep"} [] OTHER -> {}]
-AllSources == UNION {Scan(d, FALSE, 0) : d \in {"", "sub", "sub/deep", "other"}}
+     [] d = "other" -> {"o.txt.txtpp"}
+     [] d = "mid" -> {"note.md"}                       \* a directory without sources on the way to one that has some
+     [] d = "mid/leaf" -> {"q.txtpp"}]
+TreeSubs == [d \in {"", "sub", "sub/deep", "other", "mid", "mid/leaf"} |->
+   CASE d = "" -> {"sub", "other", "mid"} [] d = "sub" -> {"deep"} [] d = "mid" -> {"leaf"} [] OTHER -> {}]
+AllSources == UNION {Scan(d, FALSE, 0) : d \in {"", "sub", "sub/deep", "other", "mid", "mid/leaf"}}
 TreeDeps == [p \in AllSources |->
    CASE p = "a.txt.txtpp" -> {"sub/b.txtpp.txt"}
      [] p = "sub/b.txtpp.txt" -> {"sub/deep/d.md.txtpp"}
@@ -24,7 +26,7 @@ TreeDeps == [p \in AllSources |->
 Exprs == << ".", "sub", "sub/deep", "other", "a.txt", "a.txt.txtpp", "./a.txt", "sub/../a.txt.txtpp", "c", "c.txtpp",
             ".e", "a.b.c", "a.b.txtpp.c", "i.txt.bak", "sub/b.txt", "sub/b.txtpp.txt", "sub/x.md", "sub/deep/z",
             "other/../c", "plain.txt", "missing.txt", "missing.txtpp", "txtpp", "h.txtpp.tar.gz", "other/../sub/", "sub/deep/../x.md.txtpp",
-            "a.c", ".txtpp", "sub/.txtpp.f", "sub/deep/d.md" >>
+            "a.c", ".txtpp", "sub/.txtpp.f", "sub/deep/d.md", "mid", "mid/leaf/q" >>
 
 VARIABLES ins, rec, mode
 Init == /\ ins \in {s \in UNION {[1..k -> 1..Len(Exprs)] : k \in 0..MaxIn} : (IF s = <<>> THEN 0 ELSE s[1]) % Parts = Part}
